@@ -372,3 +372,57 @@ def _same_arm(g, inst):
             break
         cur = par
     return res
+
+
+def rule_cost_marks(ctx, rep, config="c-lib"):
+    rep.rule("R13-costmark", "the cost field doubles as visit mark (cost -> -cost-1): every store that toggles it is control dependent on a sign test of the same node's "
+                             "cost, so a node reached through several parents is costed (prune_to_minimal) and restored (traverse_pruned_translation) exactly once")
+    from ..expr import lin, Lin
+    p = ctx.prog(config)
+    n = 0
+    for fn in ("prune_to_minimal", "traverse_pruned_translation"):
+        f = p.fn(fn)
+        rep.cover(p, [fn])
+        for s in f.all_insts():
+            if s.op != "store" or resolve_addr(f, s.ops[1]).last_field() != "yaep_anode.cost":
+                continue
+            v = lin(f, s.ops[0], 0, 1)
+            # toggle:  -1*L[cost] - 1
+            loads = [a for a in v.atoms() if a.startswith("L[") and a.endswith("yaep_anode.cost]")]
+            if not (v.c == -1 and len(loads) == 1 and v.t.get(loads[0]) == -1 and len(v.t) == 1):
+                continue
+            n += 1
+            key = "%s/cost-toggle#%d" % (fn, n)
+            guarded = False
+            for (c, pol) in _controlling_conditions(f, s.block.name):
+                lp = loaded_from(f, c.ops[0])
+                if lp is not None and lp.last_field() == "yaep_anode.cost" and const_int(c.ops[1]) is not None and c.d["pred"] in ("slt", "sge", "sgt", "sle"):
+                    guarded = True
+            if guarded:
+                rep.ok("R13-costmark", key, sample={"store": s.where()})
+            else:
+                rep.violation("R13-costmark", key, "%s toggles the cost/visit mark of a node without testing it: a node shared by two parents is toggled twice and keeps a "
+                                                   "negative cost" % fn, where=s.where(), witness=[s.where()])
+    rep.floor("R13-costmark", "cost-mark toggles", n, 2)
+    # marking and restoring are paired on every path; the tie rule reads the user's one-parse setting
+    g = p.fn("find_minimal_translation")
+    pr = [i for i in g.calls() if i.callee == "prune_to_minimal"]
+    tr = [i for i in g.calls() if i.callee == "traverse_pruned_translation"]
+    if len(pr) == 1 and len(tr) == 1 and g.inst_postdominates(tr[0], pr[0]) and g.inst_dominates(pr[0], tr[0]):
+        rep.ok("R13-costmark", "find_minimal_translation/mark-restore-paired", sample={"mark": pr[0].where(), "restore": tr[0].where()})
+    else:
+        rep.violation("R13-costmark", "find_minimal_translation/mark-restore-paired", "the pass that turns the visit marks back into costs does not run on every path after the "
+                      "costing pass: abstract nodes keep negative cost fields", where=(tr[0].where() if tr else g.where()))
+    mp = p.fn("make_parse")
+    fm = [i for i in mp.calls() if i.callee == "find_minimal_translation"]
+    reads = any(i.op == "load" and resolve_addr(h, i.ops[0]).last_field() == "grammar.one_parse_p"
+                for hn in p.reach("find_minimal_translation") for h in [p.m.functions.get(hn)] if h is not None and not h.decl for i in h.all_insts())
+    if fm and reads:
+        stores = [s for s in mp.all_insts() if s.op == "store" and resolve_addr(mp, s.ops[1]).last_field() == "grammar.one_parse_p"]
+        loads = [l for l in mp.all_insts() if l.op == "load" and resolve_addr(mp, l.ops[0]).last_field() == "grammar.one_parse_p"]
+        restore = [s for s in stores if any(strip_casts(mp, s.ops[0]) == {"k": "i", "v": l.id} for l in loads)]
+        if restore and all(mp.inst_dominates(restore[0], c) for c in fm):
+            rep.ok("R13-costmark", "make_parse/user-setting-restored-before-pruning", sample={"restore": restore[0].where(), "pruning": fm[0].where()})
+        else:
+            rep.violation("R13-costmark", "make_parse/user-setting-restored-before-pruning", "cost pruning decides between `all minimal translations' and `one of them' by the "
+                          "one-parse flag, but runs while the flag is still forced to the all-parses value", where=fm[0].where(), witness=[fm[0].where()])
